@@ -937,21 +937,26 @@ func run(c *lib.Ctx, cs *caseT) {
 
 	// a handler whose statement assigns a user variable makes the interpreter restart the procedure in a loop that
 	// ignores context cancellation: try such bodies in a child process first and only run them here if they return
-	childHung := false
-	if hasUserHandler(cs.Body) {
+	childHangs := func(limit time.Duration) bool {
 		cmd := exec.Command(os.Args[0])
 		cmd.Env = append(os.Environ(), "C24_CHILD_CREATE="+create, fmt.Sprintf("C24_CHILD_CALL=call p(%d, %d)", cs.Params[0], cs.Params[1]))
-		if err := cmd.Start(); err == nil {
-			ch := make(chan error, 1)
-			go func() { ch <- cmd.Wait() }()
-			select {
-			case <-ch:
-			case <-time.After(4 * time.Second):
-				cmd.Process.Kill()
-				<-ch
-				childHung = true
-			}
+		if err := cmd.Start(); err != nil {
+			return false
 		}
+		ch := make(chan error, 1)
+		go func() { ch <- cmd.Wait() }()
+		select {
+		case <-ch:
+			return false
+		case <-time.After(limit):
+			cmd.Process.Kill()
+			<-ch
+			return true
+		}
+	}
+	childHung := false
+	if hasUserHandler(cs.Body) {
+		childHung = childHangs(4 * time.Second)
 	}
 	// the engine
 	e := eng.New("db")
@@ -1110,13 +1115,20 @@ func run(c *lib.Ctx, cs *caseT) {
 	}
 	c.Count("run-shape:" + fsig)
 	var id int
-	if feat["declare-null"] {
+	if timedOut && fsig == "plain" {
+		id = c.CaseNoModel(cs, key) // judged below after a second run
+	} else if feat["declare-null"] {
 		id = c.CaseNoModel(cs, key) // DEFAULT NULL is kept as an unevaluated AST node by the engine: not modelled
 	} else {
 		id = c.Case(term, cs, key)
 	}
 	if status == "unfinished" {
 		c.Count("reference-did-not-finish")
+		return
+	}
+	if timedOut && fsig == "plain" && !childHung && !childHangs(60*time.Second) {
+		// no known defect shape and a second, isolated run does return: the machine was merely too slow
+		c.Count("slow-but-finite")
 		return
 	}
 	c.PredChecked()
